@@ -197,6 +197,24 @@ theorem orientCell_scale_invariant (sqrt : K → K) (atol : K) (v : List K) (c :
   simp only [Function.comp]
   field_simp
 
+/-- **unchanged direction, in the library's own vocabulary**: setting a norm above the
+threshold does not change the orientation of a cell that was above the threshold -/
+theorem orientCell_setCell (sqrt : K → K) (atol : K) (v : List K) (t : K) (h0 : 0 ≤ atol)
+    (hs : SqrtAt sqrt (sqLen v)) (ht : SqrtAt sqrt (t * t))
+    (hat : atol < normCell sqrt v) (htt : atol < t) :
+    orientCell sqrt atol (setCell sqrt v t) = orientCell sqrt atol v := by
+  have hpos : 0 < sqrt (sqLen v) := lt_of_le_of_lt h0 hat
+  have hnz : sqLen v ≠ 0 := fun e => hpos.ne' (hs.eq_zero_iff.mpr e)
+  have htpos : 0 < t := lt_of_le_of_lt h0 htt
+  have hl : sqLen (setCell sqrt v t) = t * t := setCell_sqLen sqrt v t hs hnz
+  have hn : normCell sqrt (setCell sqrt v t) = t := by
+    rw [normCell_setCell sqrt v t hs hnz ht, abs_of_pos htpos]
+  have e := setCell_nonzero sqrt v t hs hnz
+  have hs' : SqrtAt sqrt (sqLen (smul (t / sqrt (sqLen v)) v)) := by rw [← e, hl]; exact ht
+  rw [e]
+  exact orientCell_scale_invariant sqrt atol v _ (div_pos htpos hpos) h0 hs hs' hat
+    (by rw [← e, hn]; exact htt)
+
 /-- **The property's sentence about the setter, for one cell**: whatever the old vector and
 the target, the cell ends `Rescaled` — non-zero ⇒ squared length `t²`, parallel, same sense
 for `t > 0`; zero ⇒ still zero. -/
@@ -412,6 +430,18 @@ theorem orientation_eq_setNorm_one (atol : Rat) (h0 : 0 ≤ atol) (f g : Fld)
   subst h
   exact orientCell_eq_setCell_one sqrt atol _ h0 hat
 
+/-- **unchanged direction** at field level: wherever the old length and the target both
+exceed the threshold, the orientation field is the same before and after the assignment -/
+theorem setNorm_keeps_orientation (atol : Rat) (h0 : 0 ≤ atol) (f g : Fld) (s : NSpec) (t : NDA Rat)
+    (ht : asArray1 f.mesh s = .ok t) (h : setNorm sqrt f (some s) = .ok g) (i : List Nat)
+    (hs : SqrtAt sqrt (sqLen (f.data.get i))) (htt : SqrtAt sqrt (t.get i * t.get i))
+    (hat : atol < normCell sqrt (f.data.get i)) (hta : atol < t.get i) :
+    (orientation sqrt atol g).data.get i = (orientation sqrt atol f).data.get i := by
+  rw [setNorm_of_target ht] at h
+  simp only [Except.ok.injEq] at h
+  subst h
+  exact orientCell_setCell sqrt atol _ _ h0 hs htt hat hta
+
 /-! ### constructor order, `valid="norm"`, later updates -/
 
 /-- **Constructor order values → norm → validity**: the array of `Field(mesh, nvdim,
@@ -503,6 +533,38 @@ example : ∃ g, mk? sqrtQ atolDefault
     { region := { pmin := [0], pmax := [2], dims := ["x"], units := ["m"], tol := 0 },
       n := [2], bc := "", subs := [] } 2 (.vec [3, 4]) (some (.const 10)) .byNorm none = .ok g :=
   ⟨_, rfl⟩
+
+/-! ## The executable model itself (`sqrt := sqrtQ`, what the driver runs)
+
+On every cell whose length is rational — all scaled Pythagorean vectors of the
+correspondence run — the hypotheses about `sqrt` are theorems, not assumptions. -/
+section Driver
+
+/-- the model the driver runs rescales every rational-length cell as the property says,
+for every kind of norm specification -/
+theorem driver_setNorm_rescaled (f g : Fld) (s : NSpec) (t : NDA Rat)
+    (ht : asArray1 f.mesh s = .ok t) (h : setNorm sqrtQ f (some s) = .ok g) (i : List Nat)
+    (hr : ∃ q : Rat, sqLen (f.data.get i) = q * q) :
+    Rescaled (f.data.get i) (g.data.get i) (t.get i) :=
+  setNorm_rescaled sqrtQ f g s t ht h i (sqrtQ_sqrtAt_of_isSquare hr) sqrtQ_zero
+
+/-- … its norm getter returns exactly the rational length `|q|` -/
+theorem driver_norm_exact (f : Fld) (i : List Nat) (q : Rat) (hr : sqLen (f.data.get i) = q * q) :
+    (norm sqrtQ f).data.get i = [|q|] := by
+  show [normCell sqrtQ (f.data.get i)] = _
+  unfold normCell; rw [hr, sqrtQ_mul_self]
+
+/-- … and its orientation is zero at or below the threshold, a unit vector above it -/
+theorem driver_orientation_dichotomy (atol : Rat) (h0 : 0 ≤ atol) (f : Fld) (i : List Nat) (q : Rat)
+    (hr : sqLen (f.data.get i) = q * q) :
+    (|q| ≤ atol ∧ (orientation sqrtQ atol f).data.get i = zeros (f.data.get i)) ∨
+    (atol < |q| ∧ sqLen ((orientation sqrtQ atol f).data.get i) = 1) := by
+  have hn : normCell sqrtQ (f.data.get i) = |q| := by unfold normCell; rw [hr, sqrtQ_mul_self]
+  have := orientCell_dichotomy sqrtQ atol (f.data.get i) h0 (sqrtQ_sqrtAt_of_isSquare ⟨q, hr⟩)
+  rw [hn] at this
+  exact this
+
+end Driver
 
 /-! ## Real fields: `Real.sqrt`, no side condition -/
 section Real
